@@ -97,9 +97,16 @@ func TestBidReach(t *testing.T) {
 			}
 		}
 		for _, st := range BidStates {
-			if n := len(w.BidConvs(st)); n > 0 {
+			cs := w.BidConvs(st)
+			if n := len(cs); n > 0 {
 				events["final store "+st] += n
 				seen["final store "+st] = true
+			}
+			for _, c := range cs {
+				if c.Type == 0x21 {
+					events["final store "+st+" (ONS domain)"]++
+					seen["final store "+st+" (ONS domain)"] = true
+				}
 			}
 		}
 		for e := range seen {
